@@ -9,8 +9,8 @@
    is now a theorem without any guard.  mono_closed is still false because of one root cause that
    stays open (generic structs are never instantiated, KF-C17-5): its refutation is kept, and the
    parts of mono_closed that do hold are proved. *)
-From Aelys Require Import Base.Tactics Model.AirLower Model.Mono
-  Proofs.AirLowerProofs Proofs.AirLowerTargets Proofs.MonoProofs.
+From Aelys Require Import Base.Tactics Model.AirLower Model.Mono Model.AirTypes
+  Proofs.AirLowerProofs Proofs.AirLowerTargets Proofs.MonoProofs Proofs.AirTypesProofs.
 Local Open Scope N_scope.
 
 (* ---------------------------------------------------------------- lowering *)
@@ -48,6 +48,24 @@ Proof.
   exists w_then_entry. eexists. destruct then_entry_witness as [H1 [H2 H3]].
   split; [exact H1|]. repeat split; try exact H3; vm_compute; reflexivity.
 Qed.
+
+(* ---------------------------------------------------------------- lowering of types *)
+(* a type parameter in scope wins over a struct of the same name (`struct T {..}` + `fn id<T>(x: T)`
+   lowers x as T0; otherwise no instance could ever be inferred for id) *)
+Theorem C17_type_param_shadows_struct :
+  forall tps structs n k, index_of n tps 0 = Some k ->
+    lower_ty tps structs (IName n) = TParam (N.of_nat k).
+Proof. exact type_param_shadows_struct. Qed.
+
+(* every struct named by a lowered type (at any depth of array / vec / function types) is a
+   declared struct; and outside a generic function no type parameter is produced *)
+Theorem C17_lowered_types_name_declared_structs :
+  forall tps structs t s, In s (struct_names (lower_ty tps structs t)) -> In s structs.
+Proof. intros tps structs. exact (proj1 (lower_ty_structs_exist tps structs)). Qed.
+
+Theorem C17_no_type_param_outside_generic :
+  forall structs t, has_param (lower_ty [] structs t) = false.
+Proof. intro structs. exact (proj1 (lower_ty_no_param_without_tparams structs)). Qed.
 
 (* ---------------------------------------------------------------- monomorphisation *)
 (* unbounded: monomorphisation never invents or alters a CFG, so the CFG clauses carry over *)
